@@ -371,7 +371,7 @@ def rule_ctl3(prog, labeller, table, tier):
                     r.fail(Finding(
                         PROP, 'R-CTL-3', I.where(v.node, handler.module),
                         handler.short(), 'raise:' + key,
-                        'handler of %s raises %r' % (key, v.exc)))
+                        'handler of %s raises %r' % (key, v.exc)), witness=v)
                     continue
                 # the sets returned for subformulas are their memo entries:
                 # a handler must not modify them
